@@ -313,6 +313,10 @@ def function_results(out):
 def unit_verus_name(u):
     # semantic::type_definition::resolve_regions -> pyxis::semantic::type_definition::resolve_regions
     q = u["fn"].split("/")[-1]
+    import re as _re
+    m = _re.match(r"^<(.+) for (.+)>::(\w+)$", q)
+    if m:
+        q = "%s::%s" % (m.group(2), m.group(3))
     mod = u["file"][:-3].replace("/mod", "").replace("/", "::")
     return "pyxis::%s::%s" % (mod, q)
 
@@ -365,7 +369,9 @@ def decide(prop, tier, seed, a, rundir, woven, t0):
     diags, raw = parse_diags(se)
     failures, undecided = classify(diags, raw, sm, os.path.join(woven, "src"))
     # retry unstable proofs: a failure that disappears under another seed / larger rlimit is not a failure
-    if failures and not undecided:
+    known0 = load_known()
+    fresh = [f for f in failures if not any(match_known(f, known0, p) for p in f["tags"])]
+    if fresh and not undecided:
         for k, (sd, rl) in enumerate([(7, 240), (23, 240)]):
             cmd2, out2, so2, se2, w2 = run_verus(woven, ["--num-threads", "16", "--multiple-errors", "20", "--rlimit", str(rl), "--smt-option", "smt.random_seed=%d" % sd])
             d2, r2 = parse_diags(se2)
@@ -439,9 +445,11 @@ def write_evidence(prop, tier, seed, info, meta, my_units, my_clauses, fres, my_
     failed_clauses = {f["clause"] for f in my_fail if f.get("clause")}
     vunits = [u for u in my_units.values() if u["mode"] == "V"]
     tunits = [u for u in my_units.values() if u["mode"] == "T"]
-    lemma_fns = sorted(k for k, v in fres.items() if v["module"] in ("verif_specs", "verif_prelude") and v["success"])
-    n_obl = len(my_clauses) + len(vunits) + len(lemma_fns)
-    n_fail = len(failed_clauses) + len({u for u in failed_units if u in my_units})
+    lemma_fns = sorted(k for k, v in fres.items() if (v["module"].startswith("verif_specs") or v["module"] == "verif_prelude") and v["success"])
+    kf_clauses = {f.get("clause") for f in my_fail if any(k.get("clause_tag") and k.get("clause_tag") == f.get("clause_name") for k in known)}
+    n_obl = len(my_clauses) - len(kf_clauses) + len(vunits) + len(lemma_fns)
+    failed_clauses = failed_clauses - kf_clauses
+    n_fail = len(failed_clauses) + len({f["unit"] for f in my_fail if f["unit"] in my_units and f.get("clause") not in kf_clauses})
     if undecided:
         n_dis = 0
     else:
